@@ -125,8 +125,14 @@ func runC05(c *Ctx) {
 	for gi, rg := range res.File.RowGroups {
 		switch {
 		case mode == 4:
+			idCol := int64(-1)
+			for li, lf := range res.File.Leaves {
+				if len(lf.Path) == 1 && lf.Path[0] == "id" {
+					idCol = int64(li)
+				}
+			}
 			for _, s := range rg.Sorting {
-				if s[0] != 0 || s[1] != 0 {
+				if s[0] != idCol || s[1] != 0 || s[2] != 0 {
 					c.Fail("c05.sorting_metadata", map[string]any{"mode": productionModes[mode]}, "row group %d declares sorting column %v, the caller declared Ascending(id) only", gi, s)
 				}
 			}
